@@ -68,6 +68,8 @@ func init() {
 			"plain-only cases count when a command's echo arrived in >=2 reads. Also: sessions of 3-5 interactive operations on one channel in which the caller reuses ONE completion-pattern slice " +
 			"across operations with pattern-less operations in between (per-operation oracles + the caller's slice must be unchanged after every call), and cases in which one write " +
 			"(the escalation secret, or an event's input) is stuck in the transport past the operation timeout (nothing may be typed by an operation that has returned; secret only in password state); both always non-trivial. " +
+			"Interactive operations carry PRNG-chosen option lists (interim prompt patterns with matching lines in the device's output ahead of the expected response in some cases and never in others, no-strip, per-operation timeout, eager, privilege level, failed-when, stop-on-failed): none changes the reference of an interactive send. " +
+			"Echo-stall cases: the echo of a last, non-eager plain command stops after a proper prefix and the command runs under a 300-600 ms per-operation timeout; judged is only that nothing is written behind the command while its echo is incomplete. " +
 			"Distinct = distinct descriptor hash.",
 		Assumptions: []string{
 			"device is causal (devsim.CLI): echoes visible input, reads hidden input without echo, reacts to a line only when its return arrived",
